@@ -104,13 +104,14 @@ func loadedFieldName(v ssa.Value) string {
 }
 
 func checkC06(w *World, r *Report) {
-	r.Explanation = "Decides, on every SSA path, that a session is reported established only after all admission checks passed: (R06.1) the server's handshake returns success only with the request parsed, the announce method matched and a non-empty negotiated version; its upgrade returns a connection only with method GET, Connection: upgrade and Upgrade == socketace/<negotiated> all satisfied (failed checks re-bind the response to a literal whose status is a constant != 101, evaluated per path); NewServerConnection succeeds only if both did; (R06.2) the negotiated version is an element of the server's supported list that equals an element of the client's list; (R06.3) the client accepts only status 200 / 101; (R06.4) peer bytes are read through the single bufio.Reader of the BufferedInputConnection — no second buffered reader over a connection exists, so the outcome cannot depend on segmentation. Not decided: the full input space of net/textproto, header size limits, index-safety of the two line parsers (interval reasoning)."
-	r.NotDecided = []string{"net/textproto parsing of arbitrary bytes", "unbounded header size (resource)", "index safety of parseRequestLine/parseResponseLine (arithmetic argument, not code shape)"}
+	r.Explanation = "Decides, on every SSA path, that a session is reported established only after all admission checks passed: (R06.1) the server's handshake returns success only with the request parsed, the announce method matched and a non-empty negotiated version; its upgrade returns a connection only with method GET, Connection: upgrade and Upgrade == socketace/<negotiated> all satisfied (failed checks re-bind the response to a literal whose status is a constant != 101, evaluated per path); NewServerConnection succeeds only if both did; (R06.2) the negotiated version is an element of the server's supported list that equals an element of the client's list; (R06.3) the client accepts only status 200 / 101; (R06.5) every index and slice expression in the handshake packages is proven in bounds for all peer input by linear-inequality entailment (dominating comparisons + the contracts of strings.Index/LastIndex + len arithmetic, refuted by Fourier–Motzkin elimination); (R06.4) peer bytes are read through the single bufio.Reader of the BufferedInputConnection — no second buffered reader over a connection exists, so the outcome cannot depend on segmentation. Not decided: the full input space of net/textproto, header size limits."
+	r.NotDecided = []string{"net/textproto parsing of arbitrary bytes", "unbounded header size (resource)"}
 	r.Trusted = []string{"net/textproto.Reader adds no buffering of its own over the bufio.Reader it is given"}
 	r.Rule("R06.1", "server success only after every admission check", 3)
 	r.Rule("R06.2", "negotiated version is a supported version the client listed", 1)
 	r.Rule("R06.3", "client accepts only 200 / 101", 2)
 	r.Rule("R06.4", "single buffered reader owns the inbound stream", 6)
+	r.Rule("R06.5", "every index / slice expression on peer-supplied text is proven in bounds (linear-inequality entailment over dominating guards)", 2)
 
 	reqRead := w.Method("internal/socketace", "Request", "Read")
 	respRead := w.Method("internal/socketace", "Response", "Read")
@@ -483,6 +484,30 @@ func checkC06(w *World, r *Report) {
 				}
 				r.Check(okr, "R06.4", key, w.Pos(c.Pos()), "the header parser reads directly from the connection's single bufio.Reader", "the header parser is not fed by the connection's single bufio.Reader (bytes read ahead are lost to the next handshake step)")
 			}
+		}
+	}
+
+	// ---- R06.5: no peer byte sequence can drive an index out of range in the handshake parsers
+	for fn := range allModuleFuncs(w, w.SSA()) {
+		if fn.Parent() != nil || fn.Pkg == nil || fn.Synthetic != "" {
+			continue
+		}
+		switch fn.Pkg.Pkg.Path() {
+		case modPath + "/internal/socketace", modPath + "/internal/util/mime", modPath + "/internal/version":
+		default:
+			continue
+		}
+		n, issues := checkBounds(fn)
+		if n == 0 {
+			continue
+		}
+		key := "bounds:" + ssaFuncKey(fn)
+		if len(issues) == 0 {
+			r.Hold("R06.5", key, w.Pos(fn.Pos()), fmt.Sprintf("%d index/slice operation(s) proven in bounds from the dominating comparisons and the contracts of strings.Index & co.", n))
+			continue
+		}
+		for _, is := range issues {
+			r.Violate("R06.5", key, w.Pos(is.Instr.Pos()), is.What+": a peer-chosen line can make this expression panic, and nothing between the socket and this code recovers — the process dies")
 		}
 	}
 
